@@ -60,7 +60,8 @@ def realistic(rng, n, maxmem):
     for _ in range(n):
         mem = rng.choice([1 << 20, (1 << 20) + rng.randrange(1, 4096), rng.randrange(1 << 20, maxmem + 1), maxmem])
         k = rng.randrange(1, 5)
-        sizes = [rng.choice(base) if rng.random() < 0.7 else rng.randrange(1, 300000) for _ in range(k)]
+        lo = 1 if mem <= (4 << 20) else 1000                  # keeps the slot count (and the run time) bounded
+        sizes = [rng.choice([b for b in base if b >= lo]) if rng.random() < 0.7 else rng.randrange(lo, 300000) for _ in range(k)]
         cuts = sorted(rng.randrange(0, 101) for _ in range(k - 1))
         pcts = [b - a for a, b in zip([0] + cuts, cuts + [100])]
         r = rng.random()
@@ -78,19 +79,18 @@ def realistic(rng, n, maxmem):
 
 def grids(tier, rng):
     if tier == 'quick':
-        exact = dict(mem=[0, 1, 7, 8, 44, 45, 64, 65, 81, 117, 128, 200, 256, 300, 400, 600, 1000, 1500, 2500, 4000],
+        exact = dict(mem=[0, 1, 7, 8, 44, 45, 65, 81, 117, 200, 256, 400, 600, 1000, 2500],
                      s1=list(range(0, 45)) + [100, 1000], p1=[0, 1, 2, 5, 10, 33, 50, 90, 99, 100, 101],
-                     s2=[0, 1, 3, 8, 16, 40], p2=[0, 1, 10, 33, 50, 90, 100],
+                     s2=[0, 1, 3, 16, 40], p2=[0, 1, 10, 33, 50, 100],
                      s3=[1, 3, 16], p3=[10, 33, 50], qcaps=[0, 1, 2, 3, 4, 7, 8, 100, 8192], extra=realistic(rng, 60, 8 << 20))
-        wrap = dict(mem=[1, 43, 44, 45, 57, 64, 100, 200, 254, 255], s1=range(256), p1=[0, 1, 50, 100, 156, 206, 255],
+        wrap = dict(mem=[1, 44, 57, 100, 200, 254, 255], s1=range(256), p1=[0, 1, 50, 100, 156, 206, 255],
                     s2=[0, 1, 8, 30, 100, 235, 236, 237, 255], p2=[0, 1, 50, 100, 156, 206, 255], s3=[1, 30], p3=[50, 206, 255],
                     qcaps=range(41), globals=False, smallcap=300)
     else:
-        exact = dict(mem=[0, 1, 4, 5, 7, 8, 9, 43, 44, 45, 56, 57, 64, 65, 79, 80, 81, 100, 116, 117, 128, 160, 200, 255, 256, 257,
-                          300, 400, 512, 600, 800, 1000, 1500],
-                     s1=list(range(0, 70)) + [100, 200, 500, 1000], p1=list(range(0, 102)) + [150, 1000],
-                     s2=[0, 1, 2, 3, 7, 8, 16, 21, 40, 100], p2=[0, 1, 10, 25, 33, 50, 67, 99, 100, 101],
-                     s3=[1, 3, 16, 40], p3=[10, 30, 33, 34, 50], qcaps=list(range(0, 70)) + [100, 1000, 8191, 8192, 16384, 65536, 1 << 20],
+        exact = dict(mem=[0, 1, 4, 5, 7, 8, 9, 43, 44, 45, 57, 64, 65, 80, 81, 117, 128, 200, 256, 300, 512, 600, 1000, 1500],
+                     s1=list(range(0, 50)) + [100, 1000], p1=list(range(0, 102)) + [150, 1000],
+                     s2=[0, 1, 3, 8, 16, 21, 40, 100], p2=[0, 1, 10, 25, 33, 50, 67, 99, 100, 101],
+                     s3=[1, 3, 16], p3=[10, 33, 34, 50], qcaps=list(range(0, 70)) + [100, 1000, 8191, 8192, 16384, 65536, 1 << 20],
                      extra=realistic(rng, 300, 32 << 20) + realistic(rng, 4, 256 << 20))
         wrap = dict(mem=[1, 8, 43, 44, 45, 57, 64, 65, 80, 100, 150, 200, 250, 254, 255], s1=range(256),
                     p1=[0, 1, 33, 50, 99, 100, 101, 156, 206, 255],
@@ -230,7 +230,7 @@ def run(prop, tier, seed, replay=None):
     if nb == 0 or nq == 0:
         ck.inconc('TLC printed no prediction rows')
         return ck.finish()
-    # reduced word width: everything outside the two recorded classes must be sound; the two lead runs must find the classes
+    # reduced word width: everything outside the recorded classes must be sound; the lead runs must find the classes
     if wres.ok:
         ck.add('states', wres.distinct)
         ck.add('transitions', wres.generated - inits(wres))
